@@ -46,7 +46,7 @@ KF = "C11-uint64-through-float64"
 
 def gen_cases(tier, seed):
     rnd = random.Random(f"C11:{seed}")
-    reps = 4 if tier == "quick" else 40
+    reps = 12 if tier == "quick" else 60
     cases = []
     for rep in range(reps):
         for i, o, pres, lay in itertools.product(IN_TYPES, OUT_TYPES, (True, False), LAYOUTS):
